@@ -42,8 +42,11 @@ import (
 //        still registered) appears in the acknowledgement list of some later
 //        request.
 //
+//  (ii') an acknowledgement answered BadSubscriptionIdInvalid (certainly
+//        processed, as in (ii)) is re-sent in at most 3 later requests.
+//
 // Re-sending after a ServiceFault, a bad service result, a dropped request, a
-// wrong result count, BadSubscriptionIdInvalid or another Bad result is allowed.
+// wrong result count or another Bad result is allowed.
 
 // PubStep is one scripted reaction to a PublishRequest.
 type PubStep struct {
@@ -191,30 +194,31 @@ type ackWorld struct {
 	c   AckCase
 	srv *script.Server
 
-	mu        sync.Mutex
-	started   bool
-	reqs      []*capReq
-	held      []*heldReq
-	next      int // next step
-	tail      int
-	live      map[uint32]bool
-	deleted   map[uint32]pos  // subscription id -> position of its DeleteSubscriptions request in the client's stream of publish requests
-	perConn   map[int]int     // publish requests captured per connection
-	byApp     map[uint32]bool // subscriptions created while an application Subscribe call was running
-	inApp     bool            // an application Subscribe call is running
-	orphan    map[uint32]bool // created for an application Subscribe call that failed at the client (e.g. timed out): the client does not know them
-	appFailed bool            // an application Subscribe call failed: its CreateSubscription request may still arrive
-	knownAt   map[uint32]pos  // subscriptions created by an application Subscribe call during the history: position at which the call had returned
-	used      map[uint32]map[uint32]bool
-	nextSub   uint32
-	tokConn   map[string]int
-	events    []string
-	t0        time.Time
-	lastReq   time.Time
-	conns     int
-	reconn    int
-	kinds     map[string]int
-	rescodes  map[string]int
+	mu         sync.Mutex
+	started    bool
+	reqs       []*capReq
+	held       []*heldReq
+	next       int // next step
+	tail       int
+	live       map[uint32]bool
+	deleted    map[uint32]pos  // subscription id -> position of its DeleteSubscriptions request in the client's stream of publish requests
+	perConn    map[int]int     // publish requests captured per connection
+	byApp      map[uint32]bool // subscriptions created while an application Subscribe call was running
+	inApp      bool            // an application Subscribe call is running
+	orphan     map[uint32]bool // created for an application Subscribe call that failed at the client (e.g. timed out): the client does not know them
+	appFailed  bool            // an application Subscribe call failed: its CreateSubscription request may still arrive
+	knownAt    map[uint32]pos  // subscriptions created by an application Subscribe call during the history: position at which the call had returned
+	used       map[uint32]map[uint32]bool
+	subInvalid map[ack]bool // acknowledgements that were answered BadSubscriptionIdInvalid once
+	nextSub    uint32
+	tokConn    map[string]int
+	events     []string
+	t0         time.Time
+	lastReq    time.Time
+	conns      int
+	reconn     int
+	kinds      map[string]int
+	rescodes   map[string]int
 }
 
 // pos is a position in the client's stream of publish requests: the client uses
@@ -335,6 +339,17 @@ func (w *ackWorld) process(conn *script.Conn, reqID uint32, req *ua.PublishReque
 	case "keepalive", "data", "badstatus":
 		id := ids[s.Sub%len(ids)]
 		res := w.results(s, len(cr.acks))
+		// a server that does not know a subscription (any more) goes on saying
+		// so: BadSubscriptionIdInvalid is sticky per acknowledgement
+		for i := range res {
+			if i < len(cr.acks) {
+				if w.subInvalid[cr.acks[i]] {
+					res[i] = ua.StatusBadSubscriptionIDInvalid
+				} else if res[i] == ua.StatusBadSubscriptionIDInvalid {
+					w.subInvalid[cr.acks[i]] = true
+				}
+			}
+		}
 		var resp *ua.PublishResponse
 		if s.Kind == "keepalive" {
 			resp = script.KeepAlive(req, id, w.unused(id, 0))
@@ -515,6 +530,24 @@ func judgeAcks(captured []*capReq, deleted map[uint32]pos, orphan map[uint32]boo
 			continue
 		}
 		for i, a := range r.acks {
+			if r.results[i] == ua.StatusBadSubscriptionIDInvalid {
+				// (ii') the server does not know the subscription (any more): a few
+				// more attempts are tolerated, acknowledging it in request after
+				// request is not "exactly once" under any reading
+				again, last := 0, 0
+				for m := ls[1]; m < len(reqs); m++ {
+					for _, b := range reqs[m].acks {
+						if a == b {
+							again++
+							last = m
+						}
+					}
+				}
+				if again > 3 {
+					return fmt.Sprintf("(ii') the acknowledgement of notification %d/%d was answered BadSubscriptionIdInvalid in the response to request %s (requests %s and %s followed on the same connection), and %d later requests (the last one %s) acknowledge it again", a.sub, a.seq, name(k), name(ls[0]), name(ls[1]), again, name(last))
+				}
+				continue
+			}
 			if r.results[i] != ua.StatusOK && r.results[i] != ua.StatusBadSequenceNumberUnknown {
 				continue
 			}
@@ -579,7 +612,7 @@ type ackResult struct {
 
 func executeAcks(c AckCase) (res ackResult, err error) {
 	hb := starve.Begin()
-	w := &ackWorld{c: c, live: map[uint32]bool{}, deleted: map[uint32]pos{}, perConn: map[int]int{}, byApp: map[uint32]bool{}, orphan: map[uint32]bool{}, knownAt: map[uint32]pos{}, used: map[uint32]map[uint32]bool{}, tokConn: map[string]int{},
+	w := &ackWorld{c: c, live: map[uint32]bool{}, deleted: map[uint32]pos{}, perConn: map[int]int{}, byApp: map[uint32]bool{}, orphan: map[uint32]bool{}, knownAt: map[uint32]pos{}, used: map[uint32]map[uint32]bool{}, subInvalid: map[ack]bool{}, tokConn: map[string]int{},
 		t0: time.Now(), kinds: map[string]int{}, rescodes: map[string]int{}}
 	srv, e := script.Start(script.Options{Handle: w.handle, OnConn: func(*script.Conn) { w.mu.Lock(); w.conns++; w.mu.Unlock() }})
 	if e != nil {
